@@ -7,6 +7,8 @@ import (
 	"encoding/binary"
 	"fmt"
 	"hash/fnv"
+	"io"
+	"net"
 	"os"
 	"strconv"
 	"strings"
@@ -290,6 +292,94 @@ func c05stress(rng *vrng, senders, perSender int, sizes []int, tcp bool, shutdow
 	return sb.String()
 }
 
+// c05closeMid: the client is closed locally while the payload of a frame is on its way — the peer has taken the header
+// and `before` payload bytes, stops reading while Close() is called, then reads on. The connection is healthy
+// throughout, so the stream must still be whole frames. Returns the check-write request for the raw bytes.
+func c05closeMid(size, seed, before int, tcp bool) string {
+	var a, b net.Conn
+	if tcp {
+		ln, err := net.Listen("tcp", "127.0.0.1:0")
+		if err != nil {
+			return "listen-failed"
+		}
+		acc := make(chan net.Conn, 1)
+		go func() { c, _ := ln.Accept(); acc <- c }()
+		a, err = net.DialTimeout("tcp", ln.Addr().String(), 3*time.Second)
+		if err != nil {
+			return "dial-failed"
+		}
+		b = <-acc
+		ln.Close()
+	} else {
+		a, b = net.Pipe()
+	}
+	c := NewClient(WithLogger(nil), WithVersion(Version1_0_1))
+	connErr := make(chan error, 1)
+	go func() {
+		defer func() {
+			if r := recover(); r != nil {
+				connErr <- fmt.Errorf("panic: %v", r)
+			}
+		}()
+		connErr <- c.Connect(a)
+	}()
+	(&vpeer{c: b}).send(vframe{ver: 1, typ: 63, id: 0, payload: renPayload(0)})
+	select {
+	case <-c.ready:
+	case <-time.After(3 * time.Second):
+		a.Close()
+		b.Close()
+		return "timeout-ready"
+	}
+	payload := genPayload(seed, size)
+	sent := make(chan error, 1)
+	go func() {
+		m, err := NewByteMessage(MessageType(2), payload)
+		if err != nil {
+			sent <- err
+			return
+		}
+		ctx, cancel := context.WithTimeout(context.Background(), 3*time.Second)
+		defer cancel()
+		sent <- c.SendNoWait(ctx, m)
+	}()
+	raw := make([]byte, 10+before)
+	b.SetReadDeadline(time.Now().Add(3 * time.Second))
+	if _, err := io.ReadFull(b, raw); err != nil {
+		a.Close()
+		b.Close()
+		return "timeout-first-bytes"
+	}
+	func() {
+		defer func() { recover() }()
+		c.Close()
+	}()
+	time.Sleep(5 * time.Millisecond)
+	rest := make(chan []byte, 1)
+	go func() {
+		b.SetReadDeadline(time.Now().Add(5 * time.Second))
+		r, _ := io.ReadAll(b)
+		rest <- r
+	}()
+	a.SetReadDeadline(time.Now()) // release the read loop; the write loop finishes what it is writing
+	select {
+	case <-connErr:
+	case <-time.After(3 * time.Second):
+	}
+	a.Close()
+	raw = append(raw, (<-rest)...)
+	b.Close()
+	must := 0
+	select {
+	case err := <-sent:
+		if err == nil {
+			must = 1
+		}
+	case <-time.After(time.Second):
+	}
+	return fmt.Sprintf("check-write x%s - - 2:%d:%d:%d", vhex(raw), size, seed, must)
+}
+
 func TestVerifC05(t *testing.T) {
 	o := vopen(t)
 	defer o.close()
@@ -327,6 +417,18 @@ func TestVerifC05(t *testing.T) {
 			}
 			seq(1, items...)
 		}
+	}
+
+	// A'. local Close() while a payload is in flight on a healthy connection: the frame is still completed
+	for i, cm := range []struct {
+		size, before int
+		tcp          bool
+	}{{100 << 10, 1000, false}, {40000, 0, false}, {limit, 70000, false}, {300000, 33000, false}, {4 << 20, 5000, true}, {65537, 65536, false}} {
+		tag := fmt.Sprintf("close-mid:%d", i)
+		if only != "" && only != tag {
+			continue
+		}
+		o.line(c05closeMid(cm.size, 17+i, cm.before, cm.tcp)+" #"+tag, "accept")
 	}
 
 	// B. concurrent stress, judged by the Lean monitor on the raw stream
